@@ -502,6 +502,23 @@ def default_history_fail():
         f = probe('after set_backend() under MIDO_BACKEND=fk/JACK and a use')
         if f:
             return f
+        # a selection that FAILS (the module cannot be imported and load=True asks for the import now) selects nothing: the
+        # backend chosen before stays the chosen one, for every top-level function ("try this backend, else keep the other")
+        mido.set_backend('fk/ALSA')
+        chosen = mido.backend
+        for bad in ('no_such_backend_module_xyz', 'no_such_backend_module_xyz/ALSA'):
+            try:
+                mido.set_backend(bad, load=True)
+                return f'set_backend({bad!r}, load=True) did not raise although the module cannot be imported'
+            except ImportError:
+                pass
+            if mido.backend is not chosen or any(getattr(getattr(mido, n), '__self__', None) is not chosen for n in FUNCS):
+                return (f'after set_backend({bad!r}, load=True) failed with ImportError, mido.backend is {mido.backend!r} and the '
+                        f'top-level functions are bound to {mido.open_input.__self__!r}; the chosen backend was {chosen!r}')
+            del log[:]
+            mido.open_output('z')
+            if log[-1:] != ['ctor:Output:z:ALSA']:
+                return f'after a failed set_backend({bad!r}, load=True), open_output("z") recorded {log[-1:]}'
         return None
     finally:
         importlib.import_module = real_import
